@@ -5,6 +5,7 @@
    every verdict of the logger, at every point.  `wok_tr tr` = the sinks obeyed the io.Writer contract. *)
 From Hy Require Import lib.Bytes model.C06_Relay model.C06_Request proof.C06_Relay proof.C06_Request gen.ParamsC06.
 From Hy Require Import model.C06_Pool proof.C06_Pool model.C06_Close proof.C06_Close.
+From Hy Require Import model.C04_Framing model.C06_E2E proof.C06_E2E.
 From Coq Require Import List NArith ZArith.
 Import ListNotations.
 Local Open Scope N_scope.
@@ -276,3 +277,149 @@ Theorem C06_client_close_must_not_abort_unestablished : forall write_req addr p,
      snd (upstream_of conn_close_abort_unestablished write_req addr c0 h) = Some UEOF).
 Proof. exact abort_unestablished_loses. Qed.
 Print Assumptions C06_client_close_must_not_abort_unestablished.
+
+(* ==== one connection end to end over the REAL codecs (model/C06_E2E.v): no codec hypothesis is left.
+   The four byte streams of a connection are io.Reader scripts of lib/Reader.v (every cut into reads, zero-length reads,
+   a terminal condition with or without the last bytes).  `delivers s (frame ++ early) post`: the frame and the first
+   `early` bytes behind it arrive without an error, cut into reads in ANY way - a read may span the end of the frame
+   (fast open) - and then the stream goes on as post (arbitrary).  `serves_io su tr`: the request was taken off su by the
+   model of quicvarint.Read + protocol.ReadTCPRequest (C04) and the Up loop's Reads are Reads of the script that left;
+   `target_io sd tr`: the Down loop's Reads are Reads of what the target sends.  `fin_ok s`: nothing follows the
+   terminal condition of s (a peer's stream ends once). *)
+
+(* The request phase of the real server leaves exactly the bytes behind the request frame WriteTCPRequest built, whatever
+   the chunking (instance of C04_request_roundtrip at the front of the client stream). *)
+Theorem C06_request_phase_is_exact : forall addr pad frame early su post,
+  1 <= N.of_nat (length addr) <= MaxAddressLength -> drawable tcpRequestPaddingMin tcpRequestPaddingMax pad ->
+  write_tcp_request addr pad = Ok frame -> delivers su (frame ++ early) post ->
+  exists st1, run_on server_read_request su = (Ok addr, st1) /\ delivers (rs_script st1) early post /\
+              sdata (rs_script st1) = early ++ sdata post /\ fin_ok (rs_script st1) = fin_ok post.
+Proof. exact request_phase_exact. Qed.
+Print Assumptions C06_request_phase_is_exact.
+
+(* C06_target_prefix_of_client_payload with the real request codec: for every run that serves the stream, the target holds
+   a prefix of the payload the client application wrote behind the request (early ++ everything after it). *)
+Theorem C06_target_prefix_of_client_payload_real : forall addr pad frame early su post,
+  1 <= N.of_nat (length addr) <= MaxAddressLength -> drawable tcpRequestPaddingMin tcpRequestPaddingMax pad ->
+  write_tcp_request addr pad = Ok frame -> delivers su (frame ++ early) post ->
+  forall m tr s, exec (init m) tr = Some s -> wok_tr tr -> serves_io su tr ->
+  exists rest, early ++ sdata post = snkb Up tr ++ rest.
+Proof. exact e2e_up_prefix. Qed.
+Print Assumptions C06_target_prefix_of_client_payload_real.
+
+(* C06_target_gets_whole_client_payload with the real request codec: the whole payload, all of it approved by the logger,
+   once the Up direction has returned nil (the client finished first). *)
+Theorem C06_target_gets_whole_client_payload_real : forall addr pad frame early su post,
+  1 <= N.of_nat (length addr) <= MaxAddressLength -> drawable tcpRequestPaddingMin tcpRequestPaddingMax pad ->
+  write_tcp_request addr pad = Ok frame -> delivers su (frame ++ early) post ->
+  forall m tr s, exec (init m) tr = Some s -> wok_tr tr -> serves_io su tr ->
+  fin_ok post = true -> (pcof s Up = PRet GNil \/ pcof s Up = PDone GNil) ->
+  snkb Up tr = early ++ sdata post /\ (m = Logged -> logged Up tr = blen (early ++ sdata post)).
+Proof. exact e2e_up_whole. Qed.
+Print Assumptions C06_target_gets_whole_client_payload_real.
+
+(* A request that does not parse (any script at all): nothing is relayed in either direction, nothing is written. *)
+Theorem C06_bad_request_relays_nothing : forall su m tr s wr,
+  (forall a st1, run_on server_read_request su <> (Ok a, st1)) ->
+  exec (init m) tr = Some s -> serves_io su tr ->
+  snkb Up tr = [] /\ snkb Down tr = [] /\ stream_out wr tr = [].
+Proof. exact e2e_bad_request. Qed.
+Print Assumptions C06_bad_request_relays_nothing.
+
+(* Clause (b): what the server put on the stream.  On EVERY run it is the response frame (if one was written) followed by
+   exactly the Down sink; on the success path the response is (true, "Connected"), it is the only one, and the run is
+   [read request; dial ok; write response] followed by a run of the relay. *)
+Theorem C06_stream_is_response_then_down_sink : forall wr m tr s, exec (init m) tr = Some s ->
+  stream_out wr tr = resp_out wr tr ++ snkb Down tr /\
+  (forall msg, In (AWriteResp true msg) tr ->
+     msg = Connected /\ stream_out wr tr = wr true Connected ++ snkb Down tr /\
+     exists tr', tr = accept_run ++ tr' /\ exec (relay_init m) tr' = Some s).
+Proof.
+  intros wr m tr s He. split; [exact (stream_out_every_run wr m tr s He)|].
+  intros msg. exact (stream_out_success wr m tr s msg He).
+Qed.
+Print Assumptions C06_stream_is_response_then_down_sink.
+
+(* C06_client_view with the real response codec, over every chunking of the client's incoming stream and every sequence of
+   buffer sizes the application reads with: after the success response the application gets a prefix of the bytes behind
+   the frame, and all of them once it has read up to the stream's end; the failure response reaches it as DialError msg -
+   from TCP() without fast open, from the first Read with fast open - and no byte. *)
+Theorem C06_client_view_real : forall pad frame early msg sc postc,
+  N.of_nat (length msg) <= MaxMessageLength -> drawable tcpResponsePaddingMin tcpResponsePaddingMax pad ->
+  delivers sc (frame ++ early) postc ->
+  (write_tcp_response true msg pad = Ok frame -> forall fo ns,
+     exists got e, client_io fo sc ns = inr (got, e) /\
+       (exists rest, early ++ sdata postc = got ++ rest) /\
+       (fin_ok postc = true -> e <> None -> got = early ++ sdata postc)) /\
+  (write_tcp_response false msg pad = Ok frame ->
+     (forall ns, client_io false sc ns = inl (RDial msg)) /\
+     (forall n ns, client_io true sc (n :: ns) = inr ([], Some (RDial msg)))).
+Proof.
+  intros pad frame early msg sc postc Hm Hp Hd. split.
+  - intros Hf fo ns. exact (client_io_ok pad frame early msg sc postc Hm Hp fo ns Hf Hd).
+  - intros Hf. exact (client_io_dial_error pad frame early msg sc postc Hm Hp Hf Hd).
+Qed.
+Print Assumptions C06_client_view_real.
+
+(* END TO END.  For every run of the server (every interleaving, chunking, error, veto), every request frame the client's
+   writer can produce, every response padding the server's writer can draw, every cut of the four streams into reads:
+   Up   - what the target received is a prefix of what the client application wrote behind the request, and the whole of
+          it when the client finished first (Up returned nil);
+   Down - what the client application reads (fast open or not, any buffer sizes) is a prefix of what the target sent, where
+          the client's stream carries a prefix of what the server wrote (sdata sc ++ lost: QUIC delivers in order, without
+          gaps), the response frame and `early` having arrived; and the whole of it when the target finished first (Down
+          returned nil), nothing was lost and the application read to the stream's end. *)
+Theorem C06_end_to_end : forall addr reqpad reqframe uearly su upost resppad dearly sd sc postc lost m tr s fo ns,
+  1 <= N.of_nat (length addr) <= MaxAddressLength -> drawable tcpRequestPaddingMin tcpRequestPaddingMax reqpad ->
+  write_tcp_request addr reqpad = Ok reqframe -> delivers su (reqframe ++ uearly) upost ->
+  drawable tcpResponsePaddingMin tcpResponsePaddingMax resppad ->
+  exec (init m) tr = Some s -> wok_tr tr -> serves_io su tr -> target_io sd tr ->
+  ((exists rest, uearly ++ sdata upost = snkb Up tr ++ rest) /\
+   (fin_ok upost = true -> (pcof s Up = PRet GNil \/ pcof s Up = PDone GNil) -> snkb Up tr = uearly ++ sdata upost)) /\
+  (In (AWriteResp true Connected) tr ->
+   delivers sc (real_write_resp resppad true Connected ++ dearly) postc ->
+   stream_out (real_write_resp resppad) tr = sdata sc ++ lost ->
+   exists got e, client_io fo sc ns = inr (got, e) /\
+     (exists rest, sdata sd = got ++ rest) /\
+     (fin_ok sd = true -> fin_ok postc = true -> lost = [] -> e <> None ->
+      (pcof s Down = PRet GNil \/ pcof s Down = PDone GNil) -> got = sdata sd)).
+Proof.
+  intros addr reqpad reqframe uearly su upost resppad dearly sd sc postc lost m tr s fo ns Ha Hrp Hrf Hsu Hdp He Hw Hs Ht.
+  split; [split|].
+  - exact (e2e_up_prefix addr reqpad reqframe uearly su upost Ha Hrp Hrf Hsu m tr s He Hw Hs).
+  - intros Hf Hp. exact (proj1 (e2e_up_whole addr reqpad reqframe uearly su upost Ha Hrp Hrf Hsu m tr s He Hw Hs Hf Hp)).
+  - intros Hin Hsc Hout. exact (e2e_down resppad dearly sd sc postc lost Hdp m tr s fo ns He Hw Ht Hin Hsc Hout).
+Qed.
+Print Assumptions C06_end_to_end.
+
+(* ... and the failed dial end to end: the client gets DialError with the server's message (of at most MaxMessageLength
+   bytes; a longer one is a protocol error at the client: C04_reject_message_before_read), the target gets nothing. *)
+Theorem C06_dial_error_end_to_end : forall m tr s msg pad early sc postc,
+  exec (init m) tr = Some s -> In (ADial (Some msg)) tr ->
+  N.of_nat (length msg) <= MaxMessageLength -> drawable tcpResponsePaddingMin tcpResponsePaddingMax pad ->
+  delivers sc (real_write_resp pad false msg ++ early) postc ->
+  snkb Up tr = [] /\ snkb Down tr = [] /\
+  (In (AWriteResp false msg) tr -> stream_out (real_write_resp pad) tr = real_write_resp pad false msg) /\
+  (forall ns, client_io false sc ns = inl (RDial msg)) /\
+  (forall n ns, client_io true sc (n :: ns) = inr ([], Some (RDial msg))).
+Proof. exact dial_error_e2e. Qed.
+Print Assumptions C06_dial_error_end_to_end.
+
+(* Non-vacuity: a concrete fast-open connection with real frames ("a:1", 64 / 128 bytes of padding): the first payload
+   byte arrives in the same read as the tail of the request, the response in the same read as the first byte of the
+   answer; the target gets "hi", the application reads "OK" and then EOF. *)
+Theorem C06_example_end_to_end :
+  drawable tcpRequestPaddingMin tcpRequestPaddingMax ex_reqpad /\
+  drawable tcpResponsePaddingMin tcpResponsePaddingMax ex_resppad /\
+  write_tcp_request ex_addr ex_reqpad = Ok ex_reqframe /\
+  delivers ex_su (ex_reqframe ++ [x68]) [Ev [x69] (Some EEof)] /\
+  delivers ex_sc (ex_respframe ++ [x4f]) [Ev [x4b] (Some EEof)] /\
+  exists s, exec (init Logged) ex_run = Some s /\ wok_tr ex_run /\ par s = QDone /\
+    serves_io ex_su ex_run /\ target_io ex_sd ex_run /\
+    pcof s Up = PDone GNil /\ pcof s Down = PRet GNil /\
+    snkb Up ex_run = [x68; x69] /\
+    stream_out (real_write_resp ex_resppad) ex_run = sdata ex_sc /\
+    client_io true ex_sc [4; 4; 4]%nat = inr ([x4f; x4b], Some (RStream EEof)) /\
+    client_io false ex_sc [1; 1; 1]%nat = inr ([x4f; x4b], Some (RStream EEof)).
+Proof. exact ex_e2e_ok. Qed.
+Print Assumptions C06_example_end_to_end.
